@@ -43,6 +43,7 @@ Definition f_mainarg_groups : str := lit "mainarg_groups".
 Definition f_obj_id : str := lit "obj_id".
 Definition f_save_name : str := lit "save_name".
 Definition f_node_uuid : str := lit "node_uuid".
+Definition f_send_message : str := lit "send_message".
 
 (* the first case of a group split, when there is one, names its group (uuid and name) *)
 Definition group_split_wf (r : srouter) : bool :=
@@ -324,4 +325,426 @@ Proof.
   apply (HP r Hr Hs).
 Qed.
 
+(* ------------------------------------------------------------------ Part 3: one pair per case *)
+Definition case_category (cats : list (category U)) (k : rcase U) : option (category U) :=
+  find (fun c => ueqb (k_cat k) (c_uuid c)) cats.
+Definition has_category (cats : list (category U)) (k : rcase U) : bool :=
+  match case_category cats k with Some _ => true | None => false end.
+
+(* the pair that stands for case [k]: it leaves the last row of the node, leads where the category of
+   the case leads and carries the condition of the case *)
+Definition pair_of_case (r : srouter) (last : tid) (cats : list (category U)) (k : rcase U) (p : option U * edge U tid) : Prop :=
+  exists c, case_category cats k = Some c /\ fst p = c_dest c /\ e_from (snd p) = last
+            /\ case_cond r k c = Ok (e_cond (snd p)).
+
+Lemma case_pairs_spec r last cats : forall cases covered pc,
+  case_pairs ueqb r last cats cases covered = Ok pc ->
+  Forall2 (pair_of_case r last cats) (filter (has_category cats) cases) (fst pc).
+Proof.
+  induction cases as [|k rest IH]; intros covered pc H; cbn [case_pairs] in H.
+  - inversion H; subst. constructor.
+  - cbn [filter]. unfold has_category at 1, case_category at 1.
+    destruct (find (fun c => ueqb (k_cat k) (c_uuid c)) cats) as [c|] eqn:Ef.
+    + destruct (case_cond r k c) as [cd|e] eqn:Ec; cbn [bind] in H; [|discriminate].
+      destruct (case_pairs ueqb r last cats rest (c_uuid c :: covered)) as [more|e] eqn:Em; cbn [bind] in H; [|discriminate].
+      inversion H; subst. cbn [fst]. constructor; [|apply (IH _ _ Em)].
+      exists c. cbn [fst snd e_from e_cond]. repeat split; [exact Ef|exact Ec].
+    + apply (IH _ _ H).
+Qed.
+
+(* The repair of cases-sharing-a-category: the pairs of a switch router begin with one pair per case (that
+   has a category), in the order of the cases; what follows is the blank default edge (unless a case
+   covers the default category) and the No Response edge. *)
+Theorem switch_pairs_one_per_case_repaired :
+  pairs_follow_cases = true ->
+  forall (r : srouter) last prs, switch_pairs ueqb r last = Ok prs ->
+    exists cps rest, prs = cps ++ rest
+      /\ Forall2 (pair_of_case r last (all_categories r)) (filter (has_category (all_categories r)) (sw_cases r)) cps
+      /\ (rest = noresp_pairs r last
+          \/ rest = (c_dest (sw_default r), {| e_from := last; e_cond := no_cond |}) :: noresp_pairs r last).
+Proof.
+  intros Hfix r last prs H. unfold switch_pairs in H. rewrite Hfix in H.
+  destruct (case_pairs ueqb r last (all_categories r) (sw_cases r) []) as [pc|e] eqn:Ec; cbn [bind] in H; [|discriminate].
+  injection H as <-. exists (fst pc). eexists. split; [reflexivity|]. split; [apply (case_pairs_spec _ _ _ _ _ _ Ec)|].
+  destruct (mem_u ueqb (c_uuid (sw_default r)) (snd pc)); [left|right]; reflexivity.
+Qed.
+
+Lemma Forall2_In_l {S T} (R : S -> T -> Prop) l l' x : Forall2 R l l' -> In x l -> exists y, In y l' /\ R x y.
+Proof.
+  intros H. induction H as [|a b la lb Hab Hl IH]; intros Hin; [contradiction|].
+  destruct Hin as [<-|Hin]; [exists b; split; [left; reflexivity|exact Hab]|].
+  destruct (IH Hin) as [y [Hy Hr]]. exists y; split; [right; exact Hy|exact Hr].
+Qed.
+
+(* no case is lost: every case of the router has its own pair *)
+Corollary every_case_has_a_pair_repaired :
+  pairs_follow_cases = true ->
+  forall (r : srouter) last prs k, switch_pairs ueqb r last = Ok prs ->
+    In k (sw_cases r) -> has_category (all_categories r) k = true ->
+    exists p, In p prs /\ pair_of_case r last (all_categories r) k p.
+Proof.
+  intros Hfix r last prs k H Hk Hc.
+  destruct (switch_pairs_one_per_case_repaired Hfix r last prs H) as (cps & rest & -> & HF & _).
+  destruct (Forall2_In_l _ _ _ k HF) as [p [Hp Hr]].
+  - apply filter_In. split; assumption.
+  - exists p. split; [apply in_or_app; left; exact Hp|exact Hr].
+Qed.
+
+(* ------------------------------------------------------------------ Part 4: no edge of an exported node is lost *)
+Definition edges_of {I} (rows : list (row U I)) : list (edge U I) := flat_map r_edges rows.
+
+(* an edge is written into the sheet when it leads somewhere, or - with the repair of
+   unconnected-non-default-category - when it carries a condition and leaves a node with free cases *)
+Definition kept (keep : bool) (p : option U * edge U tid) : bool :=
+  match fst p with Some _ => true | None => keep && negb (cond_blank (e_cond (snd p))) end.
+Definition node_keep (n : node) : bool := loose_exit_rows && has_free_cases n.
+
+Lemma edges_of_app {I} (a b : list (row U I)) : edges_of (a ++ b) = edges_of a ++ edges_of b.
+Proof. unfold edges_of. apply flat_map_app. Qed.
+
+Lemma prepend_edge_edges t e rows : forall rows',
+  prepend_edge ueqb t e rows = Some rows' ->
+  In e (edges_of rows') /\ incl (edges_of rows) (edges_of rows').
+Proof.
+  induction rows as [|r rest IH]; intros rows' H; cbn [prepend_edge] in H; [discriminate|].
+  destruct (tid_eqb ueqb (r_id r) t).
+  - inversion H; subst. unfold edges_of; cbn [flat_map r_edges]. split; [left; reflexivity|].
+    intros x Hx. right. exact Hx.
+  - destruct (prepend_edge ueqb t e rest) as [rest'|] eqn:Ep; [|discriminate].
+    inversion H; subst. destruct (IH _ eq_refl) as [Hin Hincl]. unfold edges_of in *; cbn [flat_map]. split.
+    + apply in_or_app. right. exact Hin.
+    + intros x Hx. apply in_app_or in Hx. apply in_or_app. destruct Hx as [Hx|Hx]; [left; exact Hx|right; apply Hincl, Hx].
+Qed.
+
+Lemma find_node_uuid nodes d n : find_node ueqb nodes d = Some n -> n_uuid n = d.
+Proof.
+  induction nodes as [|m rest IH]; cbn [find_node]; [discriminate|].
+  destruct (ueqb (n_uuid m) d) eqn:E; [|exact IH].
+  intros H; inversion H; subst. apply ueqb_spec, E.
+Qed.
+
+Lemma mem_u_true u l : mem_u ueqb u l = true <-> In u l.
+Proof.
+  unfold mem_u. rewrite existsb_exists. split.
+  - intros [x [Hx Hu]]. apply ueqb_spec in Hu. subst. exact Hx.
+  - intros H. exists u. split; [exact H|apply ueqb_refl].
+Qed.
+
+Section Edges.
+Variable nodes : list node.
+
+(* [n] is the node that the export finds under its uuid *)
+Definition is_node (n : node) : Prop := find_node ueqb nodes (n_uuid n) = Some n.
+
+Lemma find_node_is_node d n : find_node ueqb nodes d = Some n -> is_node n.
+Proof. intros H. unfold is_node. rewrite (find_node_uuid _ _ _ H). exact H. Qed.
+
+Lemma is_node_inj m n : is_node m -> is_node n -> n_uuid m = n_uuid n -> m = n.
+Proof. unfold is_node. intros Hm Hn E. rewrite E in Hm. rewrite Hm in Hn. inversion Hn; reflexivity. Qed.
+
+(* every kept edge that leaves [n] is an edge of some row *)
+Definition node_edges_in (n : node) (rows : list (row U tid)) : Prop :=
+  exists sn prs, short_name n = Ok sn /\ exit_edge_pairs ueqb n (last_row_id n sn) = Ok prs
+                 /\ forall p, In p prs -> kept (node_keep n) p = true -> In (snd p) (edges_of rows).
+
+Definition Inv (st : state U) : Prop :=
+  forall m, is_node m -> In (n_uuid m) (st_done st) -> node_edges_in m (st_rows st).
+
+Definition grows (st st' : state U) : Prop :=
+  incl (edges_of (st_rows st)) (edges_of (st_rows st')) /\ incl (st_done st) (st_done st').
+
+Lemma grows_refl st : grows st st.
+Proof. split; apply incl_refl. Qed.
+Lemma grows_trans a b c : grows a b -> grows b c -> grows a c.
+Proof. intros [H1 H2] [H3 H4]. split; eapply incl_tran; eassumption. Qed.
+
+Lemma node_edges_in_incl n rows rows' :
+  incl (edges_of rows) (edges_of rows') -> node_edges_in n rows -> node_edges_in n rows'.
+Proof. intros Hi (sn & prs & Hs & He & H). exists sn, prs. split; [exact Hs|]. split; [exact He|]. intros p Hp Hk. apply Hi, (H p Hp Hk). Qed.
+
+(* what the recursive call must deliver *)
+Definition rec_spec (rec : node -> edge U tid -> state U -> res (state U)) : Prop :=
+  forall c e s s', is_node c -> Inv s -> rec c e s = Ok s' ->
+                   Inv s' /\ grows s s' /\ In e (edges_of (st_rows s')).
+
+Lemma step_edges rec : rec_spec rec ->
+  forall st d e st', Inv st -> step ueqb nodes rec st (Some d, e) = Ok st' ->
+                     Inv st' /\ grows st st' /\ In e (edges_of (st_rows st')).
+Proof.
+  intros Hrec st d e st' Hinv H. unfold step in H. cbn [fst snd] in H.
+  destruct (find_node ueqb nodes d) as [child|] eqn:Ef; [|discriminate].
+  apply find_node_is_node in Ef.
+  destruct (mem_u ueqb (n_uuid child) (st_done st)).
+  - destruct (short_name child) as [csn|er]; cbn [bind] in H; [|discriminate].
+    destruct (prepend_edge ueqb _ e (st_rows st)) as [rows'|] eqn:Ep; [|discriminate].
+    inversion H; subst. destruct (prepend_edge_edges _ _ _ _ Ep) as [Hin Hincl].
+    split; [|split; [split; [exact Hincl|apply incl_refl]|exact Hin]].
+    intros m Hm Hd. cbn [st_done st_rows] in *. apply (node_edges_in_incl _ _ _ Hincl). apply (Hinv m Hm Hd).
+  - destruct (mem_u ueqb (n_uuid child) (st_vis st)).
+    + destruct (short_name child) as [csn|er]; cbn [bind] in H; [|discriminate].
+      inversion H; subst. cbn [st_rows st_done].
+      assert (Hincl : incl (edges_of (st_rows st)) (edges_of (goto_row (st_k st) (TNode (n_uuid child) csn) csn e :: st_rows st))).
+      { unfold edges_of; cbn [flat_map]. intros x Hx. apply in_or_app. right. exact Hx. }
+      split; [|split; [split; [exact Hincl|apply incl_refl]|]].
+      * intros m Hm Hd. cbn [st_done st_rows] in *. apply (node_edges_in_incl _ _ _ Hincl). apply (Hinv m Hm Hd).
+      * unfold edges_of; cbn [flat_map goto_row r_edges]. left; reflexivity.
+    + apply (Hrec _ _ _ _ Ef Hinv H).
+Qed.
+
+Lemma step_fx_edges keep sn rec : rec_spec rec ->
+  forall st p st', Inv st -> step_fx ueqb nodes keep sn rec st p = Ok st' ->
+                   Inv st' /\ grows st st' /\ (kept keep p = true -> In (snd p) (edges_of (st_rows st'))).
+Proof.
+  intros Hrec st [d e] st' Hinv H. unfold step_fx in H. unfold kept. cbn [fst snd] in *.
+  destruct d as [d|].
+  - destruct (step_edges rec Hrec st d e st' Hinv H) as (H1 & H2 & H3). split; [exact H1|]. split; [exact H2|]. intros _. exact H3.
+  - destruct (keep && negb (cond_blank (e_cond e))); inversion H; subst.
+    + cbn [st_rows st_done].
+      assert (Hincl : incl (edges_of (st_rows st)) (edges_of (loose_row (st_k st) sn e :: st_rows st))).
+      { unfold edges_of; cbn [flat_map]. intros x Hx. apply in_or_app. right. exact Hx. }
+      split; [|split; [split; [exact Hincl|apply incl_refl]|]].
+      * intros m Hm Hd. cbn [st_done st_rows] in *. apply (node_edges_in_incl _ _ _ Hincl). apply (Hinv m Hm Hd).
+      * intros _. unfold edges_of; cbn [flat_map loose_row r_edges]. left; reflexivity.
+    + split; [exact Hinv|]. split; [apply grows_refl|]. discriminate.
+Qed.
+
+Lemma foldM_step_fx_edges keep sn rec : rec_spec rec ->
+  forall prs st st', Inv st -> foldM (step_fx ueqb nodes keep sn rec) prs st = Ok st' ->
+    Inv st' /\ grows st st' /\ (forall p, In p prs -> kept keep p = true -> In (snd p) (edges_of (st_rows st'))).
+Proof.
+  intros Hrec prs. induction prs as [|p rest IH]; intros st st' Hinv H; cbn [foldM] in H.
+  - inversion H; subst. split; [exact Hinv|]. split; [apply grows_refl|]. intros p [].
+  - destruct (step_fx ueqb nodes keep sn rec st p) as [st1|e] eqn:Es; [|discriminate].
+    destruct (step_fx_edges keep sn rec Hrec _ _ _ Hinv Es) as (I1 & G1 & K1).
+    destruct (IH _ _ I1 H) as (I2 & G2 & K2).
+    split; [exact I2|]. split; [apply (grows_trans _ _ _ G1 G2)|].
+    intros q [<-|Hq] Hk; [apply (proj1 G2), K1, Hk|apply (K2 q Hq Hk)].
+Qed.
+
+Lemma action_rows_first_edge (u : U) sn base acts : forall i pe (rms : list (row U tid)),
+  acts <> [] -> action_rows u sn base acts i pe = Ok rms -> In pe (edges_of rms).
+Proof.
+  destruct acts as [|a rest]; intros i pe rms Hne H; [congruence|]. cbn [action_rows] in H.
+  destruct (action_fields a) as [tp|e]; cbn [bind] in H; [|discriminate].
+  destruct (action_rows u sn base rest (S i) _) as [more|e]; cbn [bind] in H; [|discriminate].
+  inversion H; subst. unfold edges_of; cbn [flat_map r_edges]. left; reflexivity.
+Qed.
+
+Lemma initiate_first_edge (n : node) sn pe rms : initiate_row_models n sn pe = Ok rms -> In pe (edges_of rms).
+Proof.
+  unfold initiate_row_models. intros H.
+  destruct (node_kwargs n) as [kw|e]; cbn [bind] in H; [|discriminate].
+  destruct (n_actions n) as [|a rest] eqn:Ea.
+  - destruct kw as [[tp p]|]; [|discriminate]. inversion H; subst. unfold edges_of; cbn [flat_map r_edges]. left; reflexivity.
+  - apply (action_rows_first_edge _ _ _ _ _ _ _ (fun E => nil_cons (eq_sym E)) H).
+Qed.
+
+Lemma visit_edges : forall fuel, rec_spec (visit ueqb nodes fuel).
+Proof.
+  induction fuel as [|fuel IH]; intros n pe st st' Hn Hinv H; cbn [visit] in H; [discriminate|].
+  destruct (short_name n) as [sn|e] eqn:Esn; cbn [bind] in H; [|discriminate].
+  destruct (initiate_row_models n sn pe) as [rms|e] eqn:Ei; cbn [bind] in H; [|discriminate].
+  destruct (exit_edge_pairs ueqb n (last_row_id n sn)) as [prs|e] eqn:Ee; cbn [bind] in H; [|discriminate].
+  destruct (foldM _ (rev prs) _) as [st1|e] eqn:Ef; cbn [bind] in H; [|discriminate].
+  inversion H; subst. clear H. cbn [st_rows st_done].
+  apply (foldM_step_fx_edges _ _ _ IH) in Ef.
+  2:{ intros m Hm Hd. cbn [st_done st_rows] in *. apply (Hinv m Hm Hd). }
+  destruct Ef as (I1 & [G1 G1'] & K1). cbn [st_rows st_done] in G1, G1'.
+  assert (Hincl1 : incl (edges_of (st_rows st1)) (edges_of (rms ++ st_rows st1))).
+  { rewrite edges_of_app. apply incl_appr, incl_refl. }
+  split; [|split; [split|]].
+  - intros m Hm Hd. cbn [st_done st_rows] in *. destruct Hd as [Hd|Hd].
+    + assert (m = n) by (apply is_node_inj; [exact Hm|exact Hn|symmetry; exact Hd]). subst m.
+      exists sn, prs. split; [exact Esn|]. split; [exact Ee|]. intros p Hp Hk.
+      apply Hincl1. apply (K1 p); [apply -> in_rev; exact Hp|exact Hk].
+    + apply (node_edges_in_incl _ _ _ Hincl1). apply (I1 m Hm Hd).
+  - cbn [st_rows]. eapply incl_tran; [exact G1|exact Hincl1].
+  - cbn [st_done]. apply incl_tl. exact G1'.
+  - cbn [st_rows]. rewrite edges_of_app. apply in_or_app. left. apply (initiate_first_edge _ _ _ _ Ei).
+Qed.
+
+End Edges.
+
+(* the nodes the export writes rows for (the completed nodes of the DFS), and the rows with their temporary ids *)
+Definition to_rows_state (nodes : list node) : res (state U) :=
+  match nodes with
+  | [] => Ok state0
+  | n0 :: _ => visit ueqb nodes (S (List.length nodes)) n0 start_edge state0
+  end.
+
+Lemma to_rows_tmp_state nodes : to_rows_tmp ueqb nodes = do st <- to_rows_state nodes; Ok (st_rows st).
+Proof. unfold to_rows_tmp, to_rows_state. destruct nodes; reflexivity. Qed.
+
+(* At the level of the temporary ids: every kept edge leaving an exported node is an edge of a row. *)
+Theorem exported_edges_are_in_rows nodes st :
+  to_rows_state nodes = Ok st ->
+  forall m, is_node nodes m -> In (n_uuid m) (st_done st) -> node_edges_in m (st_rows st).
+Proof.
+  unfold to_rows_state. destruct nodes as [|n0 rest] eqn:En; intros H.
+  - inversion H; subst. intros m _ [].
+  - rewrite <- En in H. assert (Hn0 : is_node nodes n0).
+    { unfold is_node. rewrite En. cbn [find_node]. rewrite ueqb_refl. reflexivity. }
+    destruct (visit_edges nodes (S (List.length nodes)) n0 start_edge state0 st Hn0) as (I & _ & _); [|exact H|].
+    + intros m _ [].
+    + rewrite <- En. exact I.
+Qed.
+
+(* the entry node is exported *)
+Lemma entry_node_exported n0 rest st : to_rows_state (n0 :: rest) = Ok st -> In (n_uuid n0) (st_done st).
+Proof.
+  unfold to_rows_state. cbn [visit List.length]. intros H.
+  destruct (short_name n0) as [sn|e]; cbn [bind] in H; [|discriminate].
+  destruct (initiate_row_models n0 sn start_edge) as [rms|e]; cbn [bind] in H; [|discriminate].
+  destruct (exit_edge_pairs ueqb n0 (last_row_id n0 sn)) as [prs|e]; cbn [bind] in H; [|discriminate].
+  destruct (foldM _ (rev prs) _) as [st1|e]; cbn [bind] in H; [|discriminate].
+  inversion H; subst. left; reflexivity.
+Qed.
+
+(* ... and through the remapping of the ids: the condition of the edge is in the final sheet *)
+Lemma remap_edges_conds m : forall (l : list (edge U tid)) l',
+  Forall2 (fun x y => remap_edge ueqb m x = Ok y) l l' -> map e_cond l' = map e_cond l.
+Proof.
+  intros l l' H. induction H as [|x y l l' Hxy Hl IH]; [reflexivity|]. cbn [map]. rewrite IH. f_equal.
+  unfold remap_edge in Hxy. destruct (mget ueqb m (e_from x)); cbn [bind] in Hxy; [|discriminate].
+  inversion Hxy; subst. reflexivity.
+Qed.
+
+Lemma remap_row_conds m (r : row U tid) r' :
+  remap_row ueqb m r = Ok r' -> map e_cond (r_edges r') = map e_cond (r_edges r).
+Proof.
+  unfold remap_row. intros H.
+  destruct (mget ueqb m (r_id r)) as [id|e]; cbn [bind] in H; [|discriminate].
+  destruct (mapM (mget ueqb m) (r_goto r)) as [gt|e]; cbn [bind] in H; [|discriminate].
+  destruct (mapM (remap_edge ueqb m) (r_edges r)) as [es|e] eqn:Em; cbn [bind] in H; [|discriminate].
+  inversion H; subst. cbn [r_edges]. apply (remap_edges_conds m), mapM_Forall2, Em.
+Qed.
+
+Definition conds_of {I} (rows : list (row U I)) : list (cond U) := map e_cond (edges_of rows).
+
+Lemma conds_of_cons {I} (r : row U I) rows : conds_of (r :: rows) = map e_cond (r_edges r) ++ conds_of rows.
+Proof. unfold conds_of, edges_of. cbn [flat_map]. apply map_app. Qed.
+
+Lemma remap_rows_conds m : forall (l : list (row U tid)) l',
+  Forall2 (fun r r' => remap_row ueqb m r = Ok r') l l' -> conds_of l' = conds_of l.
+Proof.
+  intros l l' H. induction H as [|r r' l l' Hr Hl IH]; [reflexivity|].
+  rewrite !conds_of_cons, IH. f_equal. apply (remap_row_conds _ _ _ Hr).
+Qed.
+
+Lemma to_rows_conds nb nodes rows trows :
+  to_rows_tmp ueqb nodes = Ok trows -> to_rows ueqb nb nodes = Ok rows -> conds_of rows = conds_of trows.
+Proof.
+  unfold to_rows. intros Ht H. rewrite Ht in H. cbn [bind] in H.
+  destruct (build_map ueqb nb trows 0 idmap0) as [m|e]; cbn [bind] in H; [|discriminate].
+  apply (remap_rows_conds m), mapM_Forall2, H.
+Qed.
+
+(* The repair of unconnected-non-default-category, for every flow, numbered or not, with the final row
+   ids: the condition of every kept edge that leaves an exported node is the condition of an edge of the
+   sheet.  With [loose_exit_rows] "kept" includes the edges of cases / buckets that lead nowhere. *)
+Theorem to_rows_keeps_conditions nb nodes st rows :
+  to_rows_state nodes = Ok st -> to_rows ueqb nb nodes = Ok rows ->
+  forall m, is_node nodes m -> In (n_uuid m) (st_done st) ->
+  exists sn prs, short_name m = Ok sn /\ exit_edge_pairs ueqb m (last_row_id m sn) = Ok prs
+    /\ forall p, In p prs -> kept (node_keep m) p = true -> In (e_cond (snd p)) (conds_of rows).
+Proof.
+  intros Hst H m Hm Hd.
+  assert (Ht : to_rows_tmp ueqb nodes = Ok (st_rows st)) by (rewrite to_rows_tmp_state, Hst; reflexivity).
+  destruct (exported_edges_are_in_rows nodes st Hst m Hm Hd) as (sn & prs & Hs & He & Hk).
+  exists sn, prs. split; [exact Hs|]. split; [exact He|]. intros p Hp Hkp.
+  rewrite (to_rows_conds _ _ _ _ Ht H). unfold conds_of. apply in_map. apply (Hk p Hp Hkp).
+Qed.
+
+(* the finding in its own words: no test of an exported switch router node (the kind whose cases exist only
+   through their edges) is lost, whether or not its category leads somewhere *)
+Corollary no_case_is_lost_repaired :
+  loose_exit_rows = true -> pairs_follow_cases = true ->
+  forall nb nodes st rows, to_rows_state nodes = Ok st -> to_rows ueqb nb nodes = Ok rows ->
+  forall m (r : srouter), is_node nodes m -> In (n_uuid m) (st_done st) -> n_kind m = NRouter U KSwitch r ->
+  forall k c cd, In k (sw_cases r) -> case_category (all_categories r) k = Some c ->
+    case_cond r k c = Ok cd -> cond_blank cd = false -> In cd (conds_of rows).
+Proof.
+  intros Hloose Hcases nb nodes st rows Hst H m r Hm Hd Hk k c cd Hin Hc Hcd Hnb.
+  destruct (to_rows_keeps_conditions nb nodes st rows Hst H m Hm Hd) as (sn & prs & Hs & Ee & Hkeep).
+  assert (Ee' : switch_pairs ueqb r (last_row_id m sn) = Ok prs) by (unfold exit_edge_pairs in Ee; rewrite Hk in Ee; exact Ee).
+  destruct (every_case_has_a_pair_repaired Hcases r _ prs k Ee' Hin) as [p [Hp (c' & Hc' & Hd' & _ & Hcd')]].
+  { unfold has_category. rewrite Hc. reflexivity. }
+  rewrite Hc in Hc'. inversion Hc'; subst c'. rewrite Hcd in Hcd'. inversion Hcd'; subst cd.
+  apply (Hkeep p Hp).
+  unfold kept, node_keep, has_free_cases. rewrite Hk, Hloose, Hnb. destruct (fst p); reflexivity.
+Qed.
+
 End Fix.
+
+(* ------------------------------------------------------------------ witnesses (uuids are naturals) *)
+Local Open Scope N_scope.
+Definition w_switch (u : N) (operand result : str) (wait : option N) (cases : list (rcase N)) (cats : list (category N))
+           (dflt : category N) : node N :=
+  {| n_uuid := u; n_actions := []; n_ui := None;
+     n_kind := NRouter N KSwitch {| sw_operand := operand; sw_result := result; sw_wait := wait; sw_cases := cases;
+                                    sw_cats := cats; sw_default := dflt; sw_noresp := None |} |}.
+Definition w_case (v : str) (cat : N) : rcase N := {| k_type := lit "has_any_word"; k_group := None; k_args := [v]; k_cat := cat |}.
+Definition w_cat (u : N) (nm : str) (d : option N) : category N := {| c_uuid := u; c_name := nm; c_dest := d |}.
+Definition w_other (d : option N) : category N := w_cat 90 (lit "Other") d.
+
+(* 1. a group split that has no case yet, followed by a message *)
+Definition w_group_split_flow : list (node N) :=
+  [ w_switch 1 (lit "@contact.groups") [] None [] [] (w_other (Some 2)); demo_msg 2 (lit "x") None ].
+
+Lemma group_split_witness :
+  if group_split_without_cases_exports
+  then rmap (map (fun r => r_type r)) (to_rows N.eqb false w_group_split_flow) = Ok [f_split_by_group; f_send_message]
+  else to_rows N.eqb false w_group_split_flow = Err ECrash.
+Proof. destruct group_split_without_cases_exports eqn:E; by_probe E. Qed.
+
+(* 2. a split by value that saves its result as "res" *)
+Definition w_res : str := lit "res".
+Definition w_result_flow : list (node N) :=
+  [ w_switch 1 (lit "@fields.x") (lit "res") None [w_case (lit "a") 21] [w_cat 21 (lit "A") (Some 2)] (w_other None);
+    demo_msg 2 (lit "A") None ].
+
+Lemma save_name_witness :
+  rmap (map (fun r => assoc_str f_save_name (r_pay r))) (to_rows N.eqb false w_result_flow)
+  = Ok [ (if split_rows_carry_save_name then Some (PS w_res) else None); None ].
+Proof. destruct split_rows_carry_save_name eqn:E; by_probe E. Qed.
+
+(* 3. yes -> Positive, maybe -> Unsure, ok -> Positive: the conditions of the pairs *)
+Definition w_yes : str := lit "yes".
+Definition w_maybe : str := lit "maybe".
+Definition w_ok : str := lit "ok".
+Definition w_shared_router : srouter N :=
+  {| sw_operand := lit "@input.text"; sw_result := []; sw_wait := Some 0;
+     sw_cases := [w_case (lit "yes") 21; w_case (lit "maybe") 22; w_case (lit "ok") 21];
+     sw_cats := [w_cat 21 (lit "Positive") (Some 2); w_cat 22 (lit "Unsure") (Some 3)];
+     sw_default := w_other None; sw_noresp := None |}.
+
+Lemma cases_sharing_witness :
+  rmap (map (fun p => cd_value (e_cond (snd p)))) (switch_pairs N.eqb w_shared_router TStart)
+  = Ok (if pairs_follow_cases then [PS w_yes; PS w_maybe; PS w_ok; PS []] else [PS w_yes; PS w_maybe; PS []]).
+Proof. destruct pairs_follow_cases eqn:E; by_probe E. Qed.
+
+(* 4. wait for a reply; "a" -> category A that leads nowhere; anything else -> a message *)
+Definition w_unconnected_flow : list (node N) :=
+  [ w_switch 1 (lit "@input.text") [] (Some 0) [w_case (lit "a") 21] [w_cat 21 (lit "A") None] (w_other (Some 2));
+    demo_msg 2 (lit "other") None ].
+
+Definition w_unconnected_rows_repaired : list (str * str * list (pv N)) :=
+  [ (lit "switch.input_text", lit "wait_for_response", [PS []]);
+    (lit "exit.switch.input_text", lit "loose_exit", [PS (lit "a")]);
+    (lit "msg.other", lit "send_message", [PS []]) ].
+Definition w_unconnected_rows_defect : list (str * str * list (pv N)) :=
+  [ (lit "switch.input_text", lit "wait_for_response", [PS []]);
+    (lit "msg.other", lit "send_message", [PS []]) ].
+
+Lemma unconnected_case_witness :
+  rmap (map (fun r => (r_id r, r_type r, map (fun e => cd_value (e_cond e)) (r_edges r)))) (to_rows N.eqb false w_unconnected_flow)
+  = Ok (if loose_exit_rows then w_unconnected_rows_repaired else w_unconnected_rows_defect).
+Proof. destruct loose_exit_rows eqn:E; by_probe E. Qed.
+
+(* non-vacuity of the general theorems: their premises are met by the witnesses *)
+Lemma no_case_is_lost_nonvacuous :
+  exists st rows, to_rows_state N N.eqb w_unconnected_flow = Ok st /\ to_rows N.eqb false w_unconnected_flow = Ok rows
+                  /\ map (fun n => match find_node N.eqb w_unconnected_flow (n_uuid n) with Some _ => true | None => false end)
+                         w_unconnected_flow = [true; true]
+                  /\ st_done st = [1%N; 2%N].
+Proof. destruct loose_exit_rows eqn:E; do 2 eexists; vm_compute; repeat split. Qed.
